@@ -54,6 +54,18 @@ fn main() {
         out.push_str(&format!("        0x{h}u128 => Some(op_pn::<0x{h}u128>(a)),\n"));
     }
     out.push_str("        _ => None,\n    }\n}\n");
+    // algorithm components (bellerophon / binary / slow_binary / try_fast_path): plain-flag formats with legal radices only
+    out.push_str("pub fn dispatch_alg(fmt: u128, a: &[&str]) -> Option<String> {\n    match fmt {\n");
+    for h in floats.iter() {
+        let v = u128::from_str_radix(h, 16).unwrap();
+        let radix = (v >> 104) & 0xff;
+        let base = (v >> 112) & 0xff;
+        let plain = v & ((1u128 << 104) - 1) == 0xc;
+        if plain && (2..=36).contains(&radix) && (2..=36).contains(&base) {
+            out.push_str(&format!("        0x{h}u128 => Some(crate::comp::comp_parse::op_alg::<0x{h}u128>(a)),\n"));
+        }
+    }
+    out.push_str("        _ => None,\n    }\n}\n");
     out.push_str("pub const INT_FORMATS: &[u128] = &[");
     for h in ints.iter() {
         out.push_str(&format!("0x{h}u128, "));
